@@ -9,19 +9,24 @@ def firstKind : String := "state"
 def lastKinds : List String := ["povm", "mprocess"]
 def limits : List (String × Nat) := [("state", 2), ("povm", 2)]
 def supportedStrs : List String := ["all"]
-/-! per tomography class: positional kind tests `schedule[p][0] != k`, the position whose index must be 0,
+/-! per tomography class: positional kind tests `schedule[p][0] != k`, the position whose index must be 0, the optional
+leading length test `len(schedule) != n` (none = the class has no such test),
 and the lists handed to `Experiment` (states, povms, gates, mprocesses): 0 = `[]`/absent, 1 = `[None]`,
 2 = the constructor's parameter of the same name -/
 def qstPos : List (Nat × String) := [(0, "state"), (1, "povm")]
 def qstZero : Nat := 0
+def qstLen : Option Nat := none
 def qstLists : List Nat := [1, 2, 0, 0]
 def povmtPos : List (Nat × String) := [(0, "state"), (1, "povm")]
 def povmtZero : Nat := 1
+def povmtLen : Option Nat := none
 def povmtLists : List Nat := [2, 1, 0, 0]
 def qptPos : List (Nat × String) := [(0, "state"), (1, "gate"), (2, "povm")]
 def qptZero : Nat := 1
+def qptLen : Option Nat := none
 def qptLists : List Nat := [2, 2, 1, 0]
 def qmptPos : List (Nat × String) := [(0, "state"), (1, "mprocess"), (2, "povm")]
 def qmptZero : Nat := 1
+def qmptLen : Option Nat := some 3
 def qmptLists : List Nat := [2, 2, 0, 1]
 end QGen.C20
